@@ -322,7 +322,12 @@ class World(BaseWorld):
         m = Model('tiny', f)
         assets = []
         for k, t in enumerate(types):
-            a = getattr(f.ns, t)(name=f'{t}{k}')
+            cls = getattr(f.ns, t, None)
+            if cls is None:
+                # the classes were built from this very language graph
+                raise Violation('C03.fold', f'the classes generated from the language graph have no '
+                                            f'type {t}, which the loaded language defines')
+            a = cls(name=f'{t}{k}')
             m.add_asset(a)
             assets.append(a)
         for ai, li, ri in links:
